@@ -136,7 +136,7 @@ def c13(tier, seed):
     wsh = [sh for sh in shapes(u3) if len(sh) >= 2]
     wcases = [{'universe': 'U3', 'config': c, 'state': sh} for c in (('mem',) if tier == 'quick' else ('mem', 'alt')) for sh in wsh]
     ck.add(run_cases(prog_a, twins.run_walk_case, wcases), 'async port: walk_dir streams consumed item by item with a removal in between (pending futures 0/1/2)')
-    acases = [{'clen': c_, 'k': 3 if tier == 'quick' else 4} for c_ in range(0, 3)]
+    acases = [{'clen': c_, 'k': 3 if tier == 'quick' else 4, 'first': f1, 'second': f2} for c_ in range(0, 3) for f1 in range(4) for f2 in range(4)]
     ck.add(run_cases(prog_a, asynck.run_async_reader_case, acases), 'async port: reader kernels on symbolic scripts')
     ck.bounds = {'universe': 'U5 (+U8 thorough)', 'reader': 'content 0..3/4 bytes, scripts of 3/4 steps, any 64-bit offset', 'overlay': 'UO3, 2 layers, k<=2',
                  'threads': '2 threads x 1 call on /a, /a/b of %d trees, all schedules' % len(tshapes), 'async': 'walks over U3 trees with >= 2 entries; reader content 0..2 bytes',
@@ -365,7 +365,14 @@ def reader_cases(tier, prop_, release=False):
         for clen in range(0, 4 if tier == 'quick' else 5):
             if cfg != 'mem' and clen not in (0, 2):
                 continue
-            cases.append({'cfg': cfg, 'clen': clen, 'k': k if cfg == 'mem' else min(k, 2), 'prop': prop_, 'release': release})
+            kk = k if cfg == 'mem' else min(k, 2)
+            if kk >= 3:
+                # split the script space by its first step so that the pool is balanced
+                for first in range(5):
+                    for second in range(5):
+                        cases.append({'cfg': cfg, 'clen': clen, 'k': kk, 'prop': prop_, 'release': release, 'first': first, 'second': second})
+            else:
+                cases.append({'cfg': cfg, 'clen': clen, 'k': kk, 'prop': prop_, 'release': release})
     return cases
 
 
@@ -389,7 +396,16 @@ def writer_cases(tier, prop_, phys=False, phys_create_only=False):
         if not (cfg == 'phys' and phys_create_only):
             cases.append({'cfg': cfg, 'k': 1, 'sessions': 1, 'modes': ('append',), 'prop': prop_, 'pre': None})
         cases.append({'cfg': cfg, 'k': k, 'sessions': 1, 'modes': ('create',), 'prop': prop_, 'pre': None})
-    return cases
+    # split the heavy script spaces (by the first step and by the final transfer) so that the pool is balanced
+    out = []
+    for c in cases:
+        if c['k'] * c['sessions'] >= 2:
+            for first in range(5):
+                for xf in range(3):
+                    out.append(dict(c, first=first, xfer=xf))
+        else:
+            out.append(c)
+    return out
 
 
 HANDLE_ASSUMPTIONS = COMMON_ASSUMPTIONS[:2] + [
@@ -768,7 +784,7 @@ def c15(tier, seed):
     ck.selftest = quick_selftest(prog, seed, 30 if tier == 'quick' else 300, kinds=['amem', 'amem', 'aalt', 'aovl', 'aovl3', 'aaltovl', 'aovlalt', 'mem'], profile='async')
     rng = random.Random(seed)
     k = 3 if tier == 'quick' else 4
-    cases = [{'clen': c, 'k': k if c < 3 else k - 1} for c in range(0, 4 if tier == 'quick' else 5)]
+    cases = [{'clen': c, 'k': k if c < 3 else k - 1, 'first': f1, 'second': f2} for c in range(0, 4 if tier == 'quick' else 5) for f1 in range(4) for f2 in range(4)]
     ck.add(run_cases(prog, asynck.run_async_reader_case, cases), 'AsyncReadableFile::poll_read/poll_seek vs the sync reader contract on symbolic scripts')
     u = UNIVERSES['U3']()
     ops = [(op, v) for op in ALL_OPS for v in u.vars]
